@@ -466,18 +466,24 @@ def groupspec_st(draw, max_order=None, allow_mismatch=False, families=None):
     return dict(family=fam, gens=gens, lat=lat, grot=grot, forms=forms, flip=flip, preset=name, order=order, prod=prod)
 
 
-def build_reference(spec):
-    """-> (L, Rg, RefGroup or None, dev);  dev = max distance of the generators' lattice-basis matrices from
-    integers; the reference closure is only built when the generators are compatible with the lattice (dev<1e-9)"""
-    selfcheck_presets()
-    Rg = None if spec["grot"] is None else global_rotation(spec["grot"])
-    L = lattice_of(spec["lat"], spec["grot"])
+def reference_generators(spec, Rg):
+    """(full orthogonal matrices, TR flags) of the generators, in the order of build_wb_generators"""
     fulls = [full_matrix(o, Rg) for o in spec["gens"]]
     trs = [o["tr"] for o in spec["gens"]]
     if spec.get("prod"):
         pa, pb = spec["prod"]
         fulls.append(full_matrix(pa, Rg) @ full_matrix(pb, Rg))  # a*b = apply b first, then a
         trs.append(pa["tr"] != pb["tr"])
+    return fulls, trs
+
+
+def build_reference(spec):
+    """-> (L, Rg, RefGroup or None, dev);  dev = max distance of the generators' lattice-basis matrices from
+    integers; the reference closure is only built when the generators are compatible with the lattice (dev<1e-9)"""
+    selfcheck_presets()
+    Rg = None if spec["grot"] is None else global_rotation(spec["grot"])
+    L = lattice_of(spec["lat"], spec["grot"])
+    fulls, trs = reference_generators(spec, Rg)
     dev = max([int_rep(Of, L)[1] for Of in fulls] + [0.0])
     ref = RefGroup(fulls, trs, L) if dev < 1e-9 else None
     return L, Rg, ref, dev
@@ -508,6 +514,12 @@ def kfrac_st():
 
     @st.composite
     def comp(draw):
+        if draw(st.integers(0, 2 ** 16)) % 3 == 1:
+            # special value p/q plus an offset m*1e-5: distinct images are >= 1e-5 apart (10 x SYMMETRY_PRECISION)
+            q = draw(st.sampled_from([1, 2, 3, 4, 6, 12]))
+            p = draw(st.integers(-q, q))
+            m = draw(st.one_of(st.integers(-30, 30), st.integers(-3000, 3000)))
+            return [p * (1200000 // q) + 12 * m, 1200000]
         d = draw(den)
         return [draw(st.integers(-d, d)), d]
     return st.lists(comp(), min_size=3, max_size=3)
